@@ -1,5 +1,6 @@
 """C09 — packet framing round-trips under any read fragmentation (common/encapsulation)."""
 import os
+import random
 import vlib
 
 AREA = "encap"
@@ -216,6 +217,29 @@ def gen(ctx):
     for i in range(60 if not thorough else 600):
         its, _ = rand_items(rng, bigpad=True)
         add("rt %s %s" % (its, rand_script(rng)), "rt-bigpad")
+    # EVERY chunk length 0..2100 once (a size threshold inside a prefix class - a small-chunk fast path, a stack buffer, a
+    # batch size - need not sit on a prefix-size boundary), alone and followed by a second chunk (a chunk whose prefix
+    # announces more than was written swallows the start of the next one: the desynchronised stream is visible); then
+    # the neighbourhood of every power of two and of the multiples of 1024/4096 up to 70000
+    for n in range(0, 2101):
+        a = rng.randrange(256)
+        add("rt dg%d.%d -" % (n, a), "rt-every-length")
+        add("rt dg%d.%d,dx4142,p1 %s" % (n, a, "-" if n % 7 else rand_script(rng, 6)), "rt-every-length")
+    for n in range(300, 2101):
+        add("prefix %d" % n, "prefix")
+    dense = set()
+    for e in range(11, 17):
+        dense.update(range(2 ** e - 3, 2 ** e + 4))
+    for m in range(3072, 16385, 1024):
+        dense.update(range(m - 2, m + 3))
+    for m in range(20480, 70000, 4096):
+        dense.update(range(m - 1, m + 2))
+    if thorough:
+        for m in range(2304, 70000, 256):
+            dense.update(range(m - 2, m + 3))
+    for n in sorted(dense):
+        add("rt dg%d.%d,dx41 -" % (n, rng.randrange(256)), "rt-dense-length")
+        add("prefix %d" % n, "prefix")
     # round trips with random fragmentation
     for i in range(600 if not thorough else 6000):
         its, _ = rand_items(rng, big=(i % 150 == 0))
@@ -314,7 +338,213 @@ def truncations(ctx, exe):
     return enc_lines, ["enc"] * len(enc_lines), lines, kinds
 
 
+# ---------------------------------------------------------------- the server's reader in front of ReadData
+# server/lib/http.go reads the 8-byte token and the 8-byte ClientID and then hands the SAME conn to ReadData in a loop.
+# Model: coq/Model/EncapServer.v (server_read; C09_stream_after_preamble / C09_server_roundtrip). Implementation: the real
+# server through its exported surface (harness/overlay/zz_verif/c05bb: Transport.Listen + Accept, gorilla WebSocket
+# carriers). A carrier's bytes token ++ ClientID ++ chunks/paddings are cut into WebSocket messages at every position
+# around the preamble/data boundary; each data chunk is one KCP segment (made here, so nothing is retransmitted) of one
+# smux stream, so the application bytes that come out of Accept are exactly the bytes of the packets that surfaced, in
+# order: a chunk lost, cut or invented at the reader shows as a missing/short/wrong stream or no accepted connection.
+
+SRV_TOKEN = "1293605d278175f5"
+
+
+def _prefix(n):
+    if n < 64:
+        return "%02x" % (0x80 | n)
+    if n < 8192:
+        return "%02x%02x" % (0xc0 | (n >> 7), n & 0x7f)
+    return "%02x%02x%02x" % (0xc0 | (n >> 14), 0x80 | ((n >> 7) & 0x7f), n & 0x7f)
+
+
+def _padding(n):
+    """n bytes of padding as chunks with one- or two-byte prefixes (any fill)"""
+    out = ""
+    while n > 0:
+        p = min(n, 1000)
+        if p <= 64:
+            out += "%02x" % (p - 1) + "00" * (p - 1)
+        else:
+            out += "%02x%02x" % (0x40 | ((p - 2) >> 7), (p - 2) & 0x7f) + "5a" * (p - 2)
+        n -= p
+    return out
+
+
+def _kcp_seg(conv, sn, data, ts=0):
+    import struct
+    return struct.pack("<IBBHIIII", conv, 81, 0, 128, ts & 0xffffffff, sn, 0, len(data)) + data
+
+
+def _smux(cmd, sid, data=b""):
+    import struct
+    return struct.pack("<BBHI", 2, cmd, len(data), sid) + data
+
+
+def srv_base(rng, idx, applen, first):
+    """one session: label (4-byte scenario id, session 0) + application bytes, as smux frames in KCP segments; the items
+    of the carrier stream: every segment one data chunk, paddings in between. first = what follows the preamble:
+    'data', 'pad' (a padding, then data) or 'empty' (an empty data chunk, which the packet layer ignores, then data)"""
+    sid = "c9%02x%04x" % (rng.randrange(256), idx & 0xffff)
+    cid = "%016x" % rng.getrandbits(64)
+    conv = rng.getrandbits(32)
+    app = bytes.fromhex(sid) + b"\x00" + bytes(rng.randrange(256) for _ in range(applen))
+    stream = _smux(0, 3) + _smux(2, 3, app[:5])
+    pos = 5
+    while pos < len(app):
+        n = rng.choice([1, 3, 16, 100, 400])
+        stream += _smux(2, 3, app[pos:pos + n])
+        pos += n
+    segs, pos = [], 0
+    while pos < len(stream):
+        n = max(rng.choice([1, 7, 8, 20, 60, 300]), 21 if pos == 0 else 1)
+        segs.append(_kcp_seg(conv, len(segs), stream[pos:pos + n], ts=rng.getrandbits(20)))
+        pos += n
+    items = []      # (hex on the wire, packet hex or None)
+    if first == "pad":
+        items.append((_padding(rng.choice([1, 2, 5, 64, 65, 300])), None))
+    elif first == "empty":
+        items.append(("80", ""))
+    for k, sg in enumerate(segs):
+        items.append((_prefix(len(sg)) + sg.hex(), sg.hex()))
+        if rng.random() < 0.3:
+            items.append((_padding(rng.choice([1, 1, 2, 3, 64, 65, 200])), None))
+    return dict(sid=sid, cid=cid, app=app, items=items)
+
+
+def srv_cuts(rng, total, first_item, second_item):
+    """message sizes (the last message takes the rest): every cut around the preamble/data boundary"""
+    P = 16
+    cuts = [[]]                                           # one message with everything
+    cuts += [[P + k] for k in range(0, 6)]                # preamble + k bytes of the first chunk
+    cuts += [[8, 8 + k] for k in range(0, 5)]             # token | ClientID + k bytes
+    cuts += [[8 + j, 8 - j + k] for j in range(1, 8) for k in (0, 1, 3)]          # token + j bytes of the ClientID | rest of it + k bytes
+    cuts += [[p] for p in range(1, P)]                    # one cut inside the preamble
+    cuts += [[1] * (P + first_item + 3)]                  # byte by byte across the boundary, then the rest
+    cuts += [[1] * 15 + [1 + k] for k in (1, 2, 3)]       # the read that completes the ClientID brings k bytes of data
+    cuts += [[P + first_item], [P + first_item - 1], [P + first_item + 1], [P + first_item + second_item],
+             [P + first_item, second_item], [P - 1, 2], [P - 1, 1 + first_item], [4, 4, 4, 4 + first_item + 1]]
+    for _ in range(8):
+        c, left = [], total
+        while left > 0 and len(c) < 12:
+            n = rng.choice([1, 2, 3, 7, 8, 9, 15, 16, 17, 18, 20, 40, 100, 1000])
+            c.append(n)
+            left -= n
+        cuts.append(c)
+    return cuts
+
+
+def gen_server(ctx):
+    rng = ctx.rng
+    scen = []
+    idx = 0
+    bases = [(1, "data"), (200, "pad"), (60, "empty"), (300, "data")]
+    if ctx.tier == "thorough":
+        bases += [(rng.choice([1, 5, 40, 200, 700, 1500]), rng.choice(["data", "pad", "empty"])) for _ in range(25)]
+    for applen, first in bases:
+        ncuts = len(srv_cuts(random.Random(0), 100, 10, 10))
+        for ci in range(ncuts):
+            # every scenario has its own id, ClientID, conversation and segmentation (they run concurrently against one server)
+            b = srv_base(rng, idx, applen, first)
+            idx += 1
+            wire = SRV_TOKEN + b["cid"] + "".join(h for h, _ in b["items"])
+            total = len(wire) // 2
+            ilen = [len(h) // 2 for h, _ in b["items"]]
+            c = srv_cuts(rng, total, ilen[0], ilen[1] if len(ilen) > 1 else 0)[ci]
+            sizes, left = [], total
+            for n in c:
+                n = min(n, left)
+                if n > 0:
+                    sizes.append(n); left -= n
+            if left > 0:
+                sizes.append(left)
+            ops, pos = ["i" + b["sid"], "n"], 0
+            for n in sizes:
+                ops.append("r0:x" + wire[2 * pos:2 * (pos + n)])
+                pos += n
+            ops[-1] += "@a1@t%d" % (len(b["app"]) - 5)
+            scen.append(dict(line="carrierlayer move " + ",".join(ops),
+                             mline="%s srv x%s %s" % (AREA, wire, ",".join(map(str, sizes))),
+                             kind="server-%s-first:%s" % (first, "one-message" if len(sizes) == 1 else
+                                                          "coalesced" if any(a < 16 < a + n for a, n in zip(_starts(sizes), sizes)) else "split-at-boundary"),
+                             cid=b["cid"], packets=[p for _, p in b["items"] if p is not None], app=b["app"].hex(), sizes=sizes))
+    return scen
+
+
+def _starts(sizes):
+    out, pos = [], 0
+    for n in sizes:
+        out.append(pos); pos += n
+    return out
+
+
+def server_prop(sc, impl):
+    """the round-trip clause at the server's reader, on the implementation's own answer"""
+    if impl.startswith("!"):
+        return "server driver failed: " + impl[:200]
+    d = dict(t.split("=", 1) for t in impl.split(" ") if "=" in t)
+    how = "messages of %s bytes (preamble = first 16)" % ",".join(map(str, sc["sizes"][:24]))
+    if d.get("accepted") != "1":
+        return ("the packets of the carrier did not surface (%s connections accepted instead of 1): the chunk stream was not read from "
+                "offset 16 of the carrier's bytes; %s" % (d.get("accepted"), how))
+    got = d.get("st", "-")
+    want = "0:x" + sc["app"][10:]
+    if got != want:
+        return ("the packets that surfaced upstream are not the data chunks sent (%d of %d application bytes arrived%s); %s"
+                % (max(0, len(got) - 3) // 2, len(sc["app"]) // 2 - 5, "" if want.startswith(got) else ", not a prefix of what was sent", how))
+    return None
+
+
+def server_model_ok(sc, m):
+    want = "tok=x%s cid=x%s packets=%s err=eof" % (SRV_TOKEN, sc["cid"], ",".join("x" + p for p in sc["packets"]) or "-")
+    return m == want
+
+
+def server_stage(ctx, bb, scen, result):
+    result["impl"] = vlib.run_impl(bb, [s["line"] for s in scen], timeout=1500)
+
+
 def run(ctx):
+    import threading
+    # the server's reader: runs next to everything else (its scenarios wait for real network effects)
+    scen, srv, th = [], {}, None
+    try:
+        bb = vlib.go_build("./zz_verif/c05bb")
+    except vlib.GoBuildError as e:
+        bb = None
+        ctx.not_shown("server-reader stage: harness/overlay/zz_verif/c05bb does not build against this tree: " + str(e)[-400:].replace("\n", " | "))
+    if bb:
+        scen = gen_server(ctx)
+        th = threading.Thread(target=server_stage, args=(ctx, bb, scen, srv))
+        th.start()
+    try:
+        run_rest(ctx)
+    finally:
+        if th:
+            th.join()
+    if not bb:
+        return
+    ctx.trusted.append("harness/overlay/zz_verif/c05bb/main.go (black-box server driver, exported API only) carries the server-reader stage: "
+                       "hand-made KCP segments / smux frames (lib/checks/c09.py) turn the packets that surfaced into the accepted stream")
+    ctx.assumptions.append("server-reader stage: kcp-go and smux (libraries) deliver the stream of in-order segments unchanged; a WebSocket "
+                           "message is what one Read of the server's conn can return at most")
+    mout = vlib.run_model([s["mline"] for s in scen])
+    rc, out, err = srv["impl"]
+    if rc != 0 or len(out) != len(scen):
+        ctx.violation("driver-crash", "black-box server driver died rc=%s: %s" % (rc, err[-800:]), dict(stderr=err[-3000:], driver="c05bb"))
+        return
+    for sc, o, m in zip(scen, out, mout):
+        ctx.count(sc["line"], kind=sc["kind"])
+        rep = dict(label="server-reader", case=sc["line"][:20000], impl=o[:3000], model=m[:3000], model_case=sc["mline"][:8000], driver="c05bb",
+                   expect=dict(app=sc["app"], sizes=sc["sizes"]))
+        if not server_model_ok(sc, m):
+            ctx.not_shown("model: server_read does not return the chunks sent: case=%s model=%s" % (sc["mline"][:400], m[:300]))
+        bad = server_prop(sc, o)
+        if bad:
+            ctx.violation("server-reader-framing", bad, rep)
+
+
+def run_rest(ctx):
     exe = vlib.go_build("./zz_verif/encap")
     ctx.trusted.append("scripted io.Reader in harness/overlay/zz_verif/encap/main.go realises the io.Reader behaviours the model quantifies over")
     ctx.assumptions += ["model = coq/Model/Encap.v (hand written); tie = correspondence on generated cases",
@@ -337,6 +567,13 @@ def replay(ctx, doc):
     for v in doc.get("violations", []):
         case = v["replay"].get("case")
         if not case:
+            continue
+        if v["replay"].get("driver") == "c05bb":
+            rc, r, err = vlib.run_impl(vlib.go_build("./zz_verif/c05bb"), [case])
+            r = r[0] if r else "!died"
+            p = server_prop(v["replay"]["expect"], r)
+            print("case: %s\n impl:  %s\n property: %s" % (case[:300], r[:300], p or "holds"))
+            bad += 1 if p else 0
             continue
         m = vlib.run_model([case])[0]
         if case.split(" ")[1] == "pc":
